@@ -72,13 +72,13 @@ Definition reloaded (s : state) (blocks : N) (pn an : list bstr) : state :=
   mkState (with_dstart (hdr s) (blocks + 1)) (mkPro 1 80 (blocks - 1) 84)
           (map (canon_g (blocks + 1)) (groups s)) (map (rename_frame pn an) (frames s)).
 
-Theorem load_save : forall s bytes sec blocks pn an,
+Theorem load_save_gen : forall s bytes sec blocks pn an,
   save s = Ok bytes -> section_bytes (pro s) (groups s) = Ok (sec, blocks) ->
   (* header *)
   wf_hdr (hdr s) -> wf_header (hdr s) ->
   (* parameter tree *)
   ok_tree (groups s) -> (nds (recs_of (groups s) 1) <= 1)%nat ->
-  (forall g, In g (groups s) -> is_placeholder g = false /\ group_ok g) ->
+  apply_items (items_v (groups s) 1 (blocks + 1)) [] = Ok (map (canon_g (blocks + 1)) (groups s)) ->
   blocks + 1 < 256 -> ps_start (pro s) = 1 ->
   Forall wf_item (items_v (groups s) 1 (blocks + 1)) ->
   (* the header already agrees with the parameters: updateHeader is a no-op on the reloaded object *)
@@ -112,7 +112,7 @@ Proof.
   set (st1 := mkStream bytes 512 (sec ++ data_section (frames s)) false).
   assert (Hp1 : h_paddr h1 = 2) by (destruct Wh as (_ & P & _); exact P).
   assert (Hz1 : h_zeros h1 = 0) by (destruct Wh as (Z0 & _); exact Z0).
-  destruct (read_parameters_written h1 (pro s) (groups s) sec blocks _ (data_section (frames s)) st1 Hok Hn Hg Hsec Hb Hst Wf Hp1 Hz1 Lh eq_refl Eb)
+  destruct (read_parameters_written_gen h1 (pro s) (groups s) sec blocks _ (data_section (frames s)) st1 Hok Hn Hg Hsec Hb Hst Wf Hp1 Hz1 Lh eq_refl Eb)
     as [st2 [R2 [F2 Fl2]]].
   rewrite R2. fold gs1 pr1. cbv zeta in Huh. rewrite Huh. cbn [hdr].
   cbv zeta in Hd. destruct Hd as (D1 & D2 & D3 & D4 & D5 & D6 & D7).
@@ -121,6 +121,52 @@ Proof.
   assert (A3 : 1 <= ps_blocks pr1 < 256) by (unfold pr1; cbn [ps_blocks]; lia).
   destruct (read_data_written h1 pr1 gs1 st2 (header_bytes (hdr s) (blocks + 1)) sec (frames s) pn an Hp1 Hz1 F2 A1 Lh A2 A3 D1 D2 D3 D4 D5 D6 D7) as [st3 R3].
   rewrite R3. reflexivity.
+Qed.
+
+Theorem load_save : forall s bytes sec blocks pn an,
+  save s = Ok bytes -> section_bytes (pro s) (groups s) = Ok (sec, blocks) ->
+  wf_hdr (hdr s) -> wf_header (hdr s) ->
+  ok_tree (groups s) -> (nds (recs_of (groups s) 1) <= 1)%nat ->
+  (forall g, In g (groups s) -> is_placeholder g = false /\ group_ok g) ->
+  blocks + 1 < 256 -> ps_start (pro s) = 1 ->
+  Forall wf_item (items_v (groups s) 1 (blocks + 1)) ->
+  (let s1 := mkState (with_dstart (hdr s) (blocks + 1)) (mkPro 1 80 (blocks - 1) 84) (map (canon_g (blocks + 1)) (groups s)) [] in
+   update_header f_key f_tosize f_div false s1 = ROk tt s1) ->
+  (let h := with_dstart (hdr s) (blocks + 1) in let gs := map (canon_g (blocks + 1)) (groups s) in
+   h_nb_frames h = nlen (frames s) /\ nlen (frames s) <= max_frames_vec /\
+   nlen (frames s) * (1 + 4 * h_points h + h_byframe h * (1 + h_nb_analogs h)) <= 1048576 /\
+   (if 0 <? h_points h then obind (group_named gs nm_POINT) (fun g => obind (param_named g nm_LABELS) values_as_string) = Ok pn else pn = []) /\
+   (if 0 <? h_nb_analogs h then obind (group_named gs nm_ANALOG) (fun g => obind (param_named g nm_LABELS) values_as_string) = Ok an else an = []) /\
+   (frames s <> [] -> (h_scale h < 0)%Z) /\
+   Forall (uniform (N.to_nat (h_points h)) (N.to_nat (h_byframe h)) (N.to_nat (h_nb_analogs h))) (frames s)) ->
+  load f_key f_tosize f_div bytes = Ok (reloaded s blocks pn an).
+Proof.
+  intros s bytes sec blocks pn an Sv Hs Wh Wl Hok Hn Hg. apply (load_save_gen s bytes sec blocks pn an); try assumption.
+  rewrite <- (app_nil_l (map _ (groups s))). change 1%Z with (Z.of_nat (length (@nil group)) + 1)%Z. apply (apply_tree (blocks + 1) (groups s) [] Hg).
+Qed.
+
+(* the same for a tree with placeholder groups (an object loaded from a file with sparse group ids): C04's subject *)
+Theorem load_save_sparse : forall s bytes sec blocks pn an,
+  save s = Ok bytes -> section_bytes (pro s) (groups s) = Ok (sec, blocks) ->
+  wf_hdr (hdr s) -> wf_header (hdr s) ->
+  ok_tree (groups s) -> (nds (recs_of (groups s) 1) <= 1)%nat ->
+  (forall g, In g (groups s) -> (is_placeholder g = true -> g = ph) /\ (is_placeholder g = false -> group_ok g)) ->
+  (groups s <> [] -> is_placeholder (last (groups s) ph) = false) ->
+  blocks + 1 < 256 -> ps_start (pro s) = 1 ->
+  Forall wf_item (items_v (groups s) 1 (blocks + 1)) ->
+  (let s1 := mkState (with_dstart (hdr s) (blocks + 1)) (mkPro 1 80 (blocks - 1) 84) (map (canon_g (blocks + 1)) (groups s)) [] in
+   update_header f_key f_tosize f_div false s1 = ROk tt s1) ->
+  (let h := with_dstart (hdr s) (blocks + 1) in let gs := map (canon_g (blocks + 1)) (groups s) in
+   h_nb_frames h = nlen (frames s) /\ nlen (frames s) <= max_frames_vec /\
+   nlen (frames s) * (1 + 4 * h_points h + h_byframe h * (1 + h_nb_analogs h)) <= 1048576 /\
+   (if 0 <? h_points h then obind (group_named gs nm_POINT) (fun g => obind (param_named g nm_LABELS) values_as_string) = Ok pn else pn = []) /\
+   (if 0 <? h_nb_analogs h then obind (group_named gs nm_ANALOG) (fun g => obind (param_named g nm_LABELS) values_as_string) = Ok an else an = []) /\
+   (frames s <> [] -> (h_scale h < 0)%Z) /\
+   Forall (uniform (N.to_nat (h_points h)) (N.to_nat (h_byframe h)) (N.to_nat (h_nb_analogs h))) (frames s)) ->
+  load f_key f_tosize f_div bytes = Ok (reloaded s blocks pn an).
+Proof.
+  intros s bytes sec blocks pn an Sv Hs Wh Wl Hok Hn Hg Hl. apply (load_save_gen s bytes sec blocks pn an); try assumption.
+  apply apply_tree_whole; assumption.
 Qed.
 End WithOps.
 
@@ -279,4 +325,13 @@ Proof.
   intros f_key f_tosize f_div s bytes sec blocks pn an Sv Hs Wh Wl Hok Hn Hg Hb Hst Wf Ha Hd.
   apply (load_save f_key f_tosize f_div s bytes sec blocks pn an Sv Hs Wh Wl Hok Hn Hg Hb Hst Wf); [|exact Hd].
   cbv zeta. apply update_header_noop. exact Ha.
+Qed.
+
+Definition ds_stable_b (gs : list group) : bool :=
+  forallb (fun g => forallb (fun p => is_ds p || negb (bstr_eqb (upper (p_name p)) nm_DATA_START)) (g_params g)) gs.
+Lemma ds_stable_of_b : forall gs, ds_stable_b gs = true ->
+  forall g, In g gs -> forall p, In p (g_params g) -> ds_name_stable p.
+Proof.
+  intros gs H g Hg p Hp D. unfold ds_stable_b in H. rewrite forallb_forall in H. specialize (H g Hg).
+  rewrite forallb_forall in H. specialize (H p Hp). rewrite D in H. cbn [orb] in H. apply Bool.negb_true_iff in H. exact H.
 Qed.
